@@ -329,6 +329,16 @@ func (c *converter) trackAddedIngress() {
 }
 
 func (c *converter) findBackend(namespace string, backend *networking.IngressBackend) *hatypes.Backend {
+	backendID := c.findBackendID(namespace, backend)
+	if backendID == nil {
+		return nil
+	}
+	return c.haproxy.Backends().FindBackendID(*backendID)
+}
+
+// findBackendID returns the ID of the backend an ingress backend
+// refers to, whether or not such backend was already created.
+func (c *converter) findBackendID(namespace string, backend *networking.IngressBackend) *hatypes.BackendID {
 	svcName, svcPort, err := readServiceNamePort(backend)
 	if err != nil {
 		return nil
@@ -341,7 +351,16 @@ func (c *converter) findBackend(namespace string, backend *networking.IngressBac
 	if port == nil {
 		return nil
 	}
-	return c.haproxy.Backends().FindBackend(namespace, svcName, port.TargetPort.String())
+	return &hatypes.BackendID{Namespace: namespace, Name: svcName, Port: port.TargetPort.String()}
+}
+
+// trackRefusedBackend links an ingress to the backend of a declaration that was refused because of a
+// conflict. Such declaration starts to be valid when the current owner leaves, and its backend, which
+// might be created by another ingress in the meantime, should be changed as well at that moment.
+func (c *converter) trackRefusedBackend(source *annotations.Source, namespace string, backend *networking.IngressBackend) {
+	if backendID := c.findBackendID(namespace, backend); backendID != nil {
+		c.tracker.TrackNames(source.Type, source.FullName(), convtypes.ResourceHABackend, backendID.String())
+	}
 }
 
 // normalizeHostname adjusts the hostname according to the following rules:
@@ -425,11 +444,7 @@ func (c *converter) syncIngressHTTP(source *annotations.Source, ing *networking.
 				}
 			} else if host.FindPathWithLink(pathLink) != nil {
 				c.logger.Warn("skipping redeclared path '%s' type '%s' on %v", uri, match, source)
-				// a refused declaration starts to be valid when the current owner of the path
-				// leaves, its backend should be tracked so it is also changed at that moment
-				if backend := c.findBackend(ing.Namespace, &path.Backend); backend != nil {
-					c.tracker.TrackNames(source.Type, source.FullName(), convtypes.ResourceHABackend, backend.ID)
-				}
+				c.trackRefusedBackend(source, ing.Namespace, &path.Backend)
 				continue
 			}
 			if redirectTo := annBack[ingtypes.BackRedirectTo]; redirectTo != "" {
@@ -529,11 +544,7 @@ func (c *converter) syncIngressTCP(source *annotations.Source, ing *networking.I
 		hostname := normalizeHostname(rawHostname, tcpServicePort)
 		tcpService, err := c.addTCPService(source, hostname, annTCP)
 		if err != nil {
-			// a refused declaration starts to be valid when the current owner of the tcp service
-			// leaves, its backend should be tracked so it is also changed at that moment
-			if backend := c.findBackend(ing.Namespace, ingressBackend); backend != nil {
-				c.tracker.TrackNames(source.Type, source.FullName(), convtypes.ResourceHABackend, backend.ID)
-			}
+			c.trackRefusedBackend(source, ing.Namespace, ingressBackend)
 			return err
 		}
 		defer func() {
